@@ -2406,3 +2406,272 @@ _old4_register_all = register_all
 def register_all(M):  # noqa: F811
     _old4_register_all(M)
     register_batch5(M)
+
+
+# ----------------------------------------------------------------------------- batch 6
+def register_batch6(M):
+    """closure-call helper; the methods slice iterators override (std implements them with raw pointers);
+    integer intrinsics that library code reaches through core::num methods"""
+    P = M.p
+    reg = M.reg
+
+    def targs(ext):
+        return [a['ty'] for a in ext['args'] if 'ty' in a]
+
+    def call_callable(I, ftid, f, args):
+        """call a callable value (closure, fn item, fn pointer) that the callee may call again later:
+        closures go through their body (&self / &mut self), not through the consuming call_once shim"""
+        ft = P.tys[ftid]
+        k = ft['kind']
+        if k == 'closure':
+            body = ft.get('call_mut')
+            fn = P.fns.get(body) if body else None
+            if fn is not None:
+                env_ty = P.tys[fn['locals'][1]]
+                if env_ty['kind'] == 'ref':
+                    cell = f if type(f) is Ptr else None
+                    if cell is None:
+                        holder = getattr(f, '_cell', None)
+                        if holder is None:
+                            holder = Cell(f, 'closure-env')
+                            try:
+                                f._cell = holder
+                            except AttributeError:
+                                pass
+                        cell = Ptr(holder, 0)
+                    return I.call_fn(body, [cell, Agg(list(args))], RUST_CALL)
+                return I.call_fn(body, [f, Agg(list(args))], RUST_CALL)
+            return I.call_fn(ft['call_once'], [f, Agg(list(args))], RUST_CALL)
+        if k == 'fndef':
+            return I.call_fn(ft['inst'], list(args))
+        if k == 'ref':
+            # &mut F / &F where F: FnMut
+            inner = f.c.f[f.i]
+            return call_callable(I, ft['pointee'], inner, args)
+        raise Unsupported('call of a %s value from a model' % ft['str'])
+    M.call_callable = call_callable
+
+    def truth(I, v):
+        return I.ctx.branch(v) if is_sym(v) else bool(v)
+
+    SL = r"^<std::slice::Iter(Mut)?<'a, T> as std::iter::Iterator>::"
+
+    def sl_next(it):
+        if it.pos >= it.end:
+            return None
+        p = Ptr(it.c, it.pos)
+        it.pos += 1
+        return p
+
+    @M.reg_re(SL + r'(find|position|any|all|find_map|for_each|fold|count|last|nth|rposition)$')
+    def slice_iter_method(I, ext, a):
+        meth = ext['dname'].rsplit('::', 1)[1]
+        it = deref_to_value(a[0]) if meth in ('find', 'position', 'any', 'all', 'find_map', 'nth', 'rposition') else a[0]
+        ts = targs(ext)
+        if meth == 'count':
+            n = it.end - it.pos
+            it.pos = it.end
+            return n
+        if meth == 'last':
+            if it.pos >= it.end:
+                return NONE()
+            p = Ptr(it.c, it.end - 1)
+            it.pos = it.end
+            return some(p)
+        if meth == 'nth':
+            n = a[1]
+            if is_sym(n):
+                n = I.ctx.concretize(n)
+            if it.pos + n >= it.end:
+                it.pos = it.end
+                return NONE()
+            it.pos += n
+            return some(sl_next(it))
+        ftid = ts[-1]
+        f = a[-1]
+        if meth == 'fold':
+            acc = a[1]
+            while True:
+                p = sl_next(it)
+                if p is None:
+                    return acc
+                acc = call_callable(I, ftid, f, [acc, p])
+        if meth == 'for_each':
+            while True:
+                p = sl_next(it)
+                if p is None:
+                    return UNIT()
+                call_callable(I, ftid, f, [p])
+        if meth == 'rposition':
+            while it.end > it.pos:
+                it.end -= 1
+                if truth(I, call_callable(I, ftid, f, [Ptr(it.c, it.end)])):
+                    return some(it.end - it.pos)
+            return NONE()
+        idx = 0
+        while True:
+            p = sl_next(it)
+            if p is None:
+                break
+            if meth == 'find':
+                # the predicate takes &Self::Item
+                if truth(I, call_callable(I, ftid, f, [Ptr(Cell(p, 'item'), 0)])):
+                    return some(p)
+            elif meth == 'find_map':
+                r = call_callable(I, ftid, f, [p])
+                if r.v == 1:
+                    return r
+            else:
+                t = truth(I, call_callable(I, ftid, f, [p]))
+                if meth == 'position' and t:
+                    return some(idx)
+                if meth == 'any' and t:
+                    return True
+                if meth == 'all' and not t:
+                    return False
+            idx += 1
+        if meth == 'any':
+            return False
+        if meth == 'all':
+            return True
+        return NONE()
+
+    @M.reg_re(r"^<std::slice::Iter(Mut)?<'a, T> as std::iter::(Iterator>::size_hint|ExactSizeIterator>::len)$")
+    def slice_iter_len(I, ext, a):
+        it = deref_to_value(a[0])
+        n = it.end - it.pos
+        if ext['dname'].endswith('size_hint'):
+            return Agg([n, some(n)])
+        return n
+
+    @M.reg_re(r"^<std::slice::Iter(Mut)?<'a, T> as std::iter::DoubleEndedIterator>::next_back$")
+    def slice_iter_next_back(I, ext, a):
+        it = deref_to_value(a[0])
+        if it.pos >= it.end:
+            return NONE()
+        it.end -= 1
+        return some(Ptr(it.c, it.end))
+
+    # ---- integer intrinsics
+    def int_ty(ext):
+        t = P.tys[targs(ext)[0]]
+        bits = t['bits']
+        if t['signed']:
+            return -(1 << (bits - 1)), (1 << (bits - 1)) - 1, bits, True
+        return 0, (1 << bits) - 1, bits, False
+
+    def clamp(v, lo, hi):
+        if is_sym(v):
+            return sx.If(v < lo, lo, sx.If(v > hi, hi, v))
+        return lo if v < lo else hi if v > hi else v
+
+    @reg('intrinsic:saturating_add')
+    def i_sat_add(I, ext, a):
+        lo, hi, _, _ = int_ty(ext)
+        return clamp(a[0] + a[1], lo, hi)
+
+    @reg('intrinsic:saturating_sub')
+    def i_sat_sub(I, ext, a):
+        lo, hi, _, _ = int_ty(ext)
+        return clamp(a[0] - a[1], lo, hi)
+
+    def wrap(I, v, lo, hi, bits, signed):
+        if is_sym(v):
+            m = v % (1 << bits)
+            if signed:
+                return sx.If(m > hi, m - (1 << bits), m)
+            return m
+        m = v % (1 << bits)
+        if signed and m > hi:
+            m -= 1 << bits
+        return m
+
+    @reg('intrinsic:wrapping_add')
+    def i_wrap_add(I, ext, a):
+        return wrap(I, a[0] + a[1], *int_ty(ext))
+
+    @reg('intrinsic:wrapping_sub')
+    def i_wrap_sub(I, ext, a):
+        return wrap(I, a[0] - a[1], *int_ty(ext))
+
+    @reg('intrinsic:wrapping_mul')
+    def i_wrap_mul(I, ext, a):
+        x, y = a[0], a[1]
+        if is_sym(x) and is_sym(y):
+            y = I.ctx.concretize(y)
+        return wrap(I, x * y, *int_ty(ext))
+
+    @reg('intrinsic:unchecked_add', 'intrinsic:unchecked_sub', 'intrinsic:unchecked_mul', 'intrinsic:exact_div',
+         'intrinsic:unchecked_div', 'intrinsic:unchecked_rem')
+    def i_unchecked(I, ext, a):
+        op = ext['intrinsic']
+        x, y = a[0], a[1]
+        if op.endswith('add'):
+            return x + y
+        if op.endswith('sub'):
+            return x - y
+        if op.endswith('mul'):
+            if is_sym(x) and is_sym(y):
+                y = I.ctx.concretize(y)
+            return x * y
+        if is_sym(y):
+            y = I.ctx.concretize(y)
+        if y == 0:
+            raise RustPanic('division by zero (unchecked)', 'arith')
+        if is_sym(x):
+            lo, hi, bits, signed = int_ty(ext)
+            if signed:
+                x = I.ctx.concretize(x)
+            else:
+                return x / y if not op.endswith('rem') else x % y
+        q = abs(x) // abs(y)
+        if (x < 0) != (y < 0):
+            q = -q
+        return x - q * y if op.endswith('rem') else q
+
+    @reg('intrinsic:ctpop', 'intrinsic:ctlz', 'intrinsic:cttz', 'intrinsic:ctlz_nonzero', 'intrinsic:cttz_nonzero', 'intrinsic:bswap', 'intrinsic:bitreverse')
+    def i_bits(I, ext, a):
+        lo, hi, bits, signed = int_ty(ext)
+        x = a[0]
+        if is_sym(x):
+            x = I.ctx.concretize(x)
+        u = x % (1 << bits)
+        op = ext['intrinsic']
+        if op == 'ctpop':
+            return bin(u).count('1')
+        if op.startswith('ctlz'):
+            return bits - u.bit_length()
+        if op.startswith('cttz'):
+            return bits if u == 0 else (u & -u).bit_length() - 1
+        if op == 'bswap':
+            r = int.from_bytes(u.to_bytes(bits // 8, 'little'), 'big')
+        else:
+            r = int(format(u, '0%db' % bits)[::-1], 2)
+        if signed and r > hi:
+            r -= 1 << bits
+        return r
+
+    @reg('intrinsic:rotate_left', 'intrinsic:rotate_right')
+    def i_rotate(I, ext, a):
+        lo, hi, bits, signed = int_ty(ext)
+        x, n = a[0], a[1]
+        if is_sym(x):
+            x = I.ctx.concretize(x)
+        if is_sym(n):
+            n = I.ctx.concretize(n)
+        u = x % (1 << bits)
+        n %= bits
+        if ext['intrinsic'] == 'rotate_right':
+            n = (bits - n) % bits
+        r = ((u << n) | (u >> (bits - n))) & ((1 << bits) - 1) if n else u
+        if signed and r > hi:
+            r -= 1 << bits
+        return r
+
+
+_old5_register_all = register_all
+
+
+def register_all(M):  # noqa: F811
+    _old5_register_all(M)
+    register_batch6(M)
